@@ -301,7 +301,7 @@ def run_history(cfg, ops):
     return None, sim
 
 
-class C05:
+class C05Base:
     ID = 'C05'
     ENGINE = 'e5'
     LEVEL = 'exploration'
@@ -378,3 +378,10 @@ class C05:
         if task.get('want_trace'):
             res['trace'] = traces
         return res
+
+
+from .taps import TapMixin, QueueTap  # noqa: E402
+
+
+class C05(TapMixin, C05Base):
+    TAP_CLASS = QueueTap
